@@ -14,7 +14,8 @@ def check(pid, text, note, technique, ref):
 check("C01",
       "TLC exhaustively checks the TLA+ transcription of the decoder (DecodeMech: read_name as a step machine, RDATA readers "
       "with every index guarded) for termination, index safety and name-length bound over all small byte strings; the real "
-      "decoder is then run on enumerated + random + mutated + grammar-built datagrams in watchdogged child processes and every "
+      "decoder is then run on enumerated + TLC-enumerated (every structure of compression pointers among K slots, every RDLENGTH claim x RDATA "
+      "string per record type) + random + mutated + grammar-built datagrams in watchdogged child processes and every "
       "outcome is validated by TLC against the RFC 1035 oracle (Wire!ParseMsg) and against the transcription (drift).",
       "Trusts TLC, the facade (no logic), and the harness's watchdog; time/memory proportionality is observed with generous "
       "wall-clock constants, not proved; exploration of 0..9000-byte inputs is sampled, small strings are exhaustive.",
@@ -58,12 +59,14 @@ check("C06",
 check("C07",
       "Same monitor: no announcement of a probing service before three probes 250 ms apart were seen on that interface plus 250 ms, "
       "probe content (ANY questions, proposed records in the authority section), announcement content, second announcement one second "
-      "later, bounded time to the first announcement on a silent link; all start jitters arise from seeded runs.",
+      "later, bounded time to the first announcement on a silent link and on an interface that appears later; no answer for a name that is still "
+      "being probed (C07.early-answer); all start jitters arise from seeded runs.",
       RESP_NOTE + " The mechanism model of probing (ProbeMech) is checked under C08.", RESP_TECH, "DESIGN.md section 7 C07")
 check("C09",
       "Same monitor: unregister replies OK iff the lower-cased name is registered; on OK / shutdown one multicast goodbye per interface "
       "and family where the service was announced, with PTR (+subtype), SRV, TXT, in-subnet addresses at TTL 0, repeated once 120 ms "
-      "later on the same interface; no goodbye that is not owed; no announcement or answer afterwards.",
+      "later on the same interface; no goodbye that is not owed; no announcement or answer afterwards; also after conflict renames (family conflict: "
+      "goodbyes under the names in use).",
       RESP_NOTE, RESP_TECH, "DESIGN.md section 7 C09")
 check("C10",
       "Same monitor, responder side: an answer (and the additionals it alone brings) must be omitted when the query lists the same "
@@ -82,32 +85,39 @@ check("C03", "Every ServiceResolved of every iteration is judged by the TLC moni
       "Heard's incremental rules are model-checked (LiveOnlyWithinTtl, LatestGoverns, GoodbyeWithdraws, FlushRule).", Q_NOTE, Q_TECH, "DESIGN.md section 7 C03")
 check("C04", "Same monitor: whenever the daemon parks, every instance whose PTR, SRV, TXT and an address arrived (in any split / order / with duplicates and "
       "foreign records) in packets that were for it and are live must have been reported ServiceFound and ServiceResolved; unresolved instances get "
-      "at most three follow-up queries 500 ms apart; the daemon's own questions must carry the labels of the received names.", Q_NOTE, Q_TECH, "DESIGN.md section 7 C04")
+      "at most three follow-up queries 500 ms apart, and it must ask: first for the SRV / TXT of a found instance, then for the addresses of its host, "
+      "within a second (C04.ask); the daemon's own questions must carry the labels of the received names.", Q_NOTE, Q_TECH, "DESIGN.md section 7 C04")
 check("C05", "Same monitor: whenever the daemon parks, every reported instance still has a live PTR (and every resolved one a live SRV and address) - "
       "i.e. expiry, goodbye + 1 s and verify deadlines produce ServiceRemoved in the iteration at the due time; ServiceRemoved is never sent while PTR, "
-      "SRV and an address are live for more than a second; no ServiceResolved after removal without newer records.", Q_NOTE, Q_TECH, "DESIGN.md section 7 C05")
+      "SRV and an address are live for more than a second, never before the deadline of a verify request (exact in iterations without arrivals), "
+      "not later than 1.5 s after the instance was gone (also under policy W: family browsew); no ServiceResolved after removal without newer records.", Q_NOTE, Q_TECH, "DESIGN.md section 7 C05")
 check("C11", "Same monitor: every refresh query must be explained by an unused 80/85/90/95 % mark of a live record (once per mark, never after expiry, "
       "marks restart on a fresh copy); a needed record whose mark fell due since the last iteration must be asked for; the cache-flush one-second "
-      "rule and TTL-0-means-one-second are part of Heard.tla (model-checked: FlushRule, GoodbyeWithdraws) and are exercised through C03/C05 clauses.",
+      "rule and TTL-0-means-one-second are part of Heard.tla (model-checked: FlushRule, GoodbyeWithdraws) and are exercised through C03/C05 clauses and "
+      "C11.ttl (no address is held beyond its TTL or more than a second after a cache-flush displaced it); families browse, resolve and browsew (policy W).",
       Q_NOTE, Q_TECH, "DESIGN.md section 7 C11")
 check("C13", "Same monitor: per-channel protocol automaton (first event SearchStarted, ServiceFound before ServiceResolved, exactly the owed SearchStopped "
       "in the iteration of stop / timeout / shutdown and nothing after it, cache-only browse never queries), no query for a stopped type or host "
       "(falls out of C19.explained), PTRs of a stopped browse forgotten (no replay).", Q_NOTE, Q_TECH, "DESIGN.md section 7 C13")
 check("C17", "Same monitor over driver family 'resolve': AddressesFound only for live addresses received for that host (case-insensitive) on the tagged "
       "interface, every such address reported, AddressesRemoved exactly when the record expired or was withdrawn, A+AAAA asked together on the "
-      "doubling schedule, 80 % refresh, SearchTimeout then SearchStopped at the deadline and silence afterwards.", Q_NOTE, Q_TECH, "DESIGN.md section 7 C17")
+      "doubling schedule, 80 % refresh (owed, and no address runs out without it ever having been sent: also under policy W, family resolvew), "
+      "SearchTimeout then SearchStopped at the deadline and nothing on the channel afterwards (C17.final).", Q_NOTE, Q_TECH, "DESIGN.md section 7 C17")
 check("C19", "Same monitor: every question the daemon asks must be explained by the doubling schedule of an open search (1, 2, 4 .. s capped at 3600 s; "
       "browsing again replaces the schedule), a refresh mark, one of <= 3 follow-ups, or a verify; a due schedule slot must be used; the same "
-      "question is not asked more often than explained. The schedule automaton is model-checked against the closed form (MCSchedule).",
+      "question is not asked more often than explained; families browse, resolve and silent (horizons of hours, up to the one-hour cap). The schedule "
+      "automaton is model-checked against the closed form (MCSchedule).",
       Q_NOTE, Q_TECH, "DESIGN.md section 7 C19")
 check("C20", "Same monitor over driver families 'flood' and 'browse': every get_metrics reply is compared with the ground truth: cached-ptr/srv/txt/addr <= "
       "records received and still alive, timers proportional to live records and searches (strict clause: known finding; weaker 'popped' clause "
-      "enforced), and zero records / <= 1 timer once every TTL has passed and all searches are stopped.", Q_NOTE, Q_TECH, "DESIGN.md section 7 C20")
+      "enforced), nothing kept of names of which nothing ever arrived in a packet for this daemon (C20.unrequested), and zero records / <= 1 timer once "
+      "every TTL has passed and all searches have been stopped for five seconds.", Q_NOTE, Q_TECH, "DESIGN.md section 7 C20")
 
 check("C12", "Both trace monitors derive from the API / packet history the set of pending time-driven work and its due times and require, at every park "
       "of the real daemon, that the wake-up it asks its poller for is not later than the earliest of them (C12.cover), and that it never runs 30 idle "
       "iterations in a row each asking to be woken within 1 ms (C12.nospin); exercised under policy W (woken only when it asks) on the 'silent' family "
-      "over horizons up to hours and with every interface-check setting, and at every park of the other families.",
+      "over horizons up to hours and with every interface-check setting, and at every park of the respond, browse, browsew, resolve, resolvew and conflict "
+      "families (the latter: within a second of a competing probe, won or lost).",
       Q_NOTE + " Work the daemon forgets to do even when woken is reported by the property that owns that work.", Q_TECH, "DESIGN.md section 7 C12")
 
 check("C08", "Three legs. (a) Compare.tla (class, type, RDATA, count) is model-checked for opposite verdicts and every enumerated pair of record lists is "
